@@ -18,4 +18,10 @@ META = {
   "note": "Reference resolution rule (leading delimiter = absolute, reference + delimiter is a literal prefix) is taken from the repository's own TestMatchList table; valid UTF-8 only.",
   "technique": "exhaustive small-scope enumeration + property-based testing (rapid), differential against regexp/DP reference matcher",
  },
+ "C19": {
+  "text": "Algebraic-law search (And == intersection) over generated criteria pairs on a 240-message universe with an independent matcher, plus exhaustive permutation of the top-level keys of generated SEARCH commands against a real server whose stub session records the parsed criteria. Sampling of the criteria space; complete over permutations of each sampled command.",
+  "design_ref": "DESIGN.md 3/C19",
+  "note": "Trusts kit/smodel (RFC 9051 6.4.4 matcher, 150 lines) and per-key predicates written in the test; universe is finite; mixed-zone date operands and ModSeq are not generated.",
+  "technique": "property-based testing (rapid): algebraic law vs reference matcher; metamorphic permutation invariance through the real server parser",
+ },
 }
